@@ -18,10 +18,13 @@ comparison patterns, under the extra assumption that no parameter is bound to an
 `unevaluated_failure_invisible`, `match_first_case_only`, `match_none_is_null`, …) are stated about
 executions of compiled programs.
 
-NOT covered (`…_partial`): type patterns of `match`, map literals, f-strings, postfix chains (member
-access, index, calls, macros), stored programs reached through identifiers, call logs.  For those
-constructors the property is carried by the correspondence run of the check (facet C05), as before.
+NOT covered in this file (`…_partial`): type patterns of `match`, map literals, f-strings, postfix chains
+(member access, index, calls, macros), stored programs reached through identifiers, call logs.
+`Theorems/C05Compile2.lean` extends the theorem to map literals, index, field access, calls of built-in
+functions and constructors, f-strings, the eight macros and type patterns (fragment `Frag2`, by level of the
+depth budget); what remains outside is listed there and carried by the correspondence run (facet C05).
 -/
+set_option autoImplicit false
 namespace Rscel
 namespace C05Compile
 open Rscel.Seq
@@ -103,30 +106,30 @@ theorem and_link (va vb : Val) :
 
 /-! ### equations of `evalSpec` and `compileX` on the fragment -/
 
-theorem es_or (sp : Span) (a b : Ast) (env : Env) :
-    evalSpec (.bin sp .or a b) env = chainVal true vOr (evalSpec a env) [evalSpec b env] := by
+theorem es_or {B : Builtins} (sp : Span) (a b : Ast) (env : Env) :
+    evalSpec B (.bin sp .or a b) env = chainVal true vOr (evalSpec B a env) [evalSpec B b env] := by
   rw [evalSpec]; exact or_link _ _
 
-theorem es_and (sp : Span) (a b : Ast) (env : Env) :
-    evalSpec (.bin sp .and a b) env = chainVal false vAnd (evalSpec a env) [evalSpec b env] := by
+theorem es_and {B : Builtins} (sp : Span) (a b : Ast) (env : Env) :
+    evalSpec B (.bin sp .and a b) env = chainVal false vAnd (evalSpec B a env) [evalSpec B b env] := by
   rw [evalSpec]; exact and_link _ _
 
-theorem es_bin (sp : Span) (op : BinOp) (a b : Ast) (env : Env) (h1 : op ≠ .or) (h2 : op ≠ .and) :
-    evalSpec (.bin sp op a b) env = op.apply (evalSpec a env) (evalSpec b env) := by
+theorem es_bin {B : Builtins} (sp : Span) (op : BinOp) (a b : Ast) (env : Env) (h1 : op ≠ .or) (h2 : op ≠ .and) :
+    evalSpec B (.bin sp op a b) env = op.apply (evalSpec B a env) (evalSpec B b env) := by
   rw [evalSpec] <;> assumption
 
-theorem es_lazy (sp : Span) (op : BinOp) (a b : Ast) (env : Env) (h : op = .or ∨ op = .and) :
-    evalSpec (.bin sp op a b) env = chainVal (op == .or) op.apply (evalSpec a env) [evalSpec b env] := by
+theorem es_lazy {B : Builtins} (sp : Span) (op : BinOp) (a b : Ast) (env : Env) (h : op = .or ∨ op = .and) :
+    evalSpec B (.bin sp op a b) env = chainVal (op == .or) op.apply (evalSpec B a env) [evalSpec B b env] := by
   rcases h with rfl | rfl
   · exact es_or ..
   · exact es_and ..
 
-theorem es_tern (sp : Span) (c t f : Ast) (env : Env) :
-    evalSpec (.tern sp c t f) env = ternVal (evalSpec c env) (evalSpec t env) (evalSpec f env) := by
+theorem es_tern {B : Builtins} (sp : Span) (c t f : Ast) (env : Env) :
+    evalSpec B (.tern sp c t f) env = ternVal (evalSpec B c env) (evalSpec B t env) (evalSpec B f env) := by
   rw [evalSpec]
-  cases evalSpec c env <;> rfl
+  cases evalSpec B c env <;> rfl
 
-theorem evalSpecList_eq (es : List Ast) (env : Env) : evalSpecList es env = es.map (fun e => evalSpec e env) := by
+theorem evalSpecList_eq {B : Builtins} (es : List Ast) (env : Env) : evalSpecList B es env = es.map (fun e => evalSpec B e env) := by
   induction es with
   | nil => simp [evalSpecList]
   | cons e es ih => simp [evalSpecList, ih]
@@ -217,8 +220,9 @@ theorem inv_cp {X : CPX} {val : Val} (h : Inv B rec top env X val) : Inv B rec t
 theorem cx_member_nil (sp : Span) (p : Prim) : compileX B (.member sp p []) = { cp := compilePrim B p } := by
   simp [compileX, compileOps]
 
-theorem es_member_nil (sp : Span) (p : Prim) : evalSpec (.member sp p []) env = evalSpecPrim p env := by
-  rw [evalSpec]
+theorem es_member_nil (sp : Span) (p : Prim) : evalSpec B (.member sp p []) env = evalSpecPrim B p env := by
+  rw [evalSpec, evalSpecOps]
+  intros; simp_all
 
 theorem plain_lit_list (l : List Val) : Plain (.list l) := fun _ h => by cases h
 
@@ -254,9 +258,9 @@ theorem compileCases_eq (B : Builtins) (cases : List MCase) :
   | nil => simp [compileCases]
   | cons c cs ih => cases c; simp [compileCases, ih, casePat, caseBody]
 
-theorem evalSpecCases_eq (cases : List MCase) (vs : Val) (env : Env) :
-    evalSpecCases cases vs env =
-      matchVal (cases.map (fun c => (evalSpecPat (casePat c) vs env, evalSpec (caseBody c) env))) := by
+theorem evalSpecCases_eq {B : Builtins} (cases : List MCase) (vs : Val) (env : Env) :
+    evalSpecCases B cases vs env =
+      matchVal (cases.map (fun c => (evalSpecPat B (casePat c) vs env, evalSpec B (caseBody c) env))) := by
   induction cases with
   | nil => simp [evalSpecCases, matchVal]
   | cons c cs ih =>
@@ -264,7 +268,7 @@ theorem evalSpecCases_eq (cases : List MCase) (vs : Val) (env : Env) :
     | mk sp p b =>
       rw [evalSpecCases, ih]
       simp only [List.map_cons, matchVal, casePat, caseBody]
-      cases h : evalSpecPat p vs env <;> simp [matched]
+      cases h : evalSpecPat B p vs env <;> simp [matched]
       rename_i x; cases x <;> simp
 
 theorem plain_of_runs {c : List Instr} {v : Val} (hpp : PlainParams env) (h : Runs B rec top env c v) :
@@ -273,7 +277,7 @@ theorem plain_of_runs {c : List Instr} {v : Val} (hpp : PlainParams env) (h : Ru
   exact plain_resolve hpp w
 
 theorem inv_all (hnp : NoProgs env) {m : Bool} (hpp : m = true → PlainParams env) {e : Ast} (h : Frag m e) :
-    Inv B rec top env (compileX B e) (evalSpec e env) := by
+    Inv B rec top env (compileX B e) (evalSpec B e env) := by
   induction h with
   | null sp sp' =>
     rw [cx_member_nil, es_member_nil]
@@ -309,18 +313,18 @@ theorem inv_all (hnp : NoProgs env) {m : Bool} (hpp : m = true → PlainParams e
             | none => .code (((es.map (fun e => (compileX B e).cp)).map CP.toCode).flatten ++ [.mkList es.length]) } := by
       simp [compileX, compilePrim, compileOps, compileList_eq]
       rfl
-    have hes : evalSpec (.member sp (.list sp' es) []) env = .list (es.map (fun e => evalSpec e env)) := by
-      simp [evalSpec, evalSpecPrim, evalSpecList_eq]
+    have hes : evalSpec B (.member sp (.list sp' es) []) env = .list (es.map (fun e => evalSpec B e env)) := by
+      simp [es_member_nil, evalSpecPrim, evalSpecList_eq]
     rw [hcx, hes]
     split
     · rename_i vs hvs
-      have := allConst_map (fun e => (compileX B e).cp) (fun e => evalSpec e env) es vs hvs
+      have := allConst_map (fun e => (compileX B e).cp) (fun e => evalSpec B e env) es vs hvs
         (fun e he v hv => ((ih e he).const v hv).1)
       rw [this]
       exact inv_const (plain_lit_list _)
     · apply inv_code
       have := runs_mkList (B := B) (rec := rec) (top := top) hnp
-        (es.map (fun e => ((compileX B e).cp.toCode, evalSpec e env)))
+        (es.map (fun e => ((compileX B e).cp.toCode, evalSpec B e env)))
         (fun p hp => by
           obtain ⟨e, he, rfl⟩ := List.mem_map.mp hp
           exact (ih e he).runs)
@@ -328,26 +332,26 @@ theorem inv_all (hnp : NoProgs env) {m : Bool} (hpp : m = true → PlainParams e
   | notRun sp ops m _ ih =>
     have hcx : compileX B (.notRun sp ops m) =
         { cp := .code ((compileX B m).cp.toCode ++ List.replicate ops.length .not) } := by simp [compileX]
-    have hes : evalSpec (.notRun sp ops m) env = applyN vNot ops.length (evalSpec m env) := by simp [evalSpec]
+    have hes : evalSpec B (.notRun sp ops m) env = applyN vNot ops.length (evalSpec B m env) := by simp [evalSpec]
     rw [hcx, hes]
     exact inv_code (runs_unrun hnp step_not plain_vNot ih.runs _)
   | negRun sp ops m _ ih =>
-    have hes : evalSpec (.negRun sp ops m) env = applyN neg (negCount ops m) (evalSpec m env) := by simp [evalSpec]
+    have hes : evalSpec B (.negRun sp ops m) env = applyN neg (negCount ops m) (evalSpec B m env) := by simp [evalSpec]
     rw [cx_neg, hes]
     exact inv_code (runs_unrun hnp step_neg plain_neg ih.runs _)
   | bin sp op l r _ _ ihl ihr =>
     by_cases hlazy : op = .or ∨ op = .and
     · rw [cx_lazy B sp op l r hlazy, es_lazy sp op l r env hlazy]
       obtain ⟨v0, cvs, hrest, h0, hcv, hval⟩ := chainParts_inv ihl op
-      have hcv' : ∀ p ∈ cvs ++ [((compileX B r).cp.toCode, evalSpec r env)], Runs B rec top env p.1 p.2 := by
+      have hcv' : ∀ p ∈ cvs ++ [((compileX B r).cp.toCode, evalSpec B r env)], Runs B rec top env p.1 p.2 := by
         intro p hp
         rcases List.mem_append.mp hp with hp | hp
         · exact hcv p hp
         · simp only [List.mem_singleton] at hp; subst hp; exact ihr.runs
       have hrest' : (chainParts (compileX B l) op).2 ++ [(compileX B r).cp.toCode] =
-          (cvs ++ [((compileX B r).cp.toCode, evalSpec r env)]).map (·.1) := by simp [hrest]
-      have hvalue : chainVal (op == .or) op.apply (evalSpec l env) [evalSpec r env] =
-          chainVal (op == .or) op.apply v0 ((cvs ++ [((compileX B r).cp.toCode, evalSpec r env)]).map (·.2)) := by
+          (cvs ++ [((compileX B r).cp.toCode, evalSpec B r env)]).map (·.1) := by simp [hrest]
+      have hvalue : chainVal (op == .or) op.apply (evalSpec B l env) [evalSpec B r env] =
+          chainVal (op == .or) op.apply v0 ((cvs ++ [((compileX B r).cp.toCode, evalSpec B r env)]).map (·.2)) := by
         rw [List.map_append, List.map_cons, List.map_nil, chainVal_snoc, ← hval]
       rw [hvalue, hrest']
       have hruns := runs_chain hnp (wf := op == .or) (step_binop op) (plain_apply op) h0 _ hcv'
@@ -395,12 +399,12 @@ theorem inv_all (hnp : NoProgs env) {m : Bool} (hpp : m = true → PlainParams e
   | match_ sp s cases hm _ _ _ hnt ihs iharm ihcmp =>
     have hcx : compileX B (.match_ sp s cases) =
         { cp := .code ((compileX B s).cp.toCode ++ matchTail (compileCases B cases)) } := by simp [compileX]
-    have hes : evalSpec (.match_ sp s cases) env = evalSpecCases cases (evalSpec s env) env := by rw [evalSpec]
+    have hes : evalSpec B (.match_ sp s cases) env = evalSpecCases B cases (evalSpec B s env) env := by rw [evalSpec]
     rw [hcx, hes, compileCases_eq, evalSpecCases_eq]
-    have hv : Plain (evalSpec s env) := plain_of_runs (hpp hm) ihs.runs
+    have hv : Plain (evalSpec B s env) := plain_of_runs (hpp hm) ihs.runs
     have := runs_match (B := B) (rec := rec) (top := top) hnp ihs.runs hv
       (cases.map (fun c => ((compilePat B (casePat c), (compileX B (caseBody c)).cp.toCode),
-        (evalSpecPat (casePat c) (evalSpec s env) env, evalSpec (caseBody c) env))))
+        (evalSpecPat B (casePat c) (evalSpec B s env) env, evalSpec B (caseBody c) env))))
       (fun q hq => by
         obtain ⟨c, hc, rfl⟩ := List.mem_map.mp hq
         cases c with
@@ -430,27 +434,27 @@ variable {B : Builtins} {env : Env}
 
 /-- **Compiler correctness on the fragment.**  The code emitted for `e` (constant-folded or not), placed
     anywhere (`pre ++ code ++ post`), started at its first instruction on any stack, reaches its end in
-    at most `code.length` steps having pushed exactly one entry, which denotes `evalSpec e env`; the rest
+    at most `code.length` steps having pushed exactly one entry, which denotes `evalSpec B e env`; the rest
     of the stack and the log are untouched (that is `Runs`, Lemmas/Seq.lean).
     Not covered: `match`, map literals, f-strings, member access / index / calls / macros, stored programs. -/
 theorem compile_correct_partial {rec top : Rec} (hnp : NoProgs env) {e : Ast} (h : InFragment e) :
-    Runs B rec top env (compileX B e).cp.toCode (evalSpec e env) :=
+    Runs B rec top env (compileX B e).cp.toCode (evalSpec B e env) :=
   (inv_all hnp (m := false) (fun h => nomatch h) h).runs
 
 /-- **Folding is sound on the fragment.**  Whenever the compiler replaces a tree by a constant, that constant
     is the value the semantics gives the tree — in every environment (without stored programs), so nothing an
     environment binds can tell the folded program from the unfolded one. -/
 theorem fold_sound_partial (hnp : NoProgs env) {e : Ast} (h : InFragment e) {v : Val}
-    (hc : compile B e = .const v) : v = evalSpec e env :=
+    (hc : compile B e = .const v) : v = evalSpec B e env :=
   ((inv_all (rec := runAt B 0) (top := runAt B 0) hnp (m := false) (fun h => nomatch h) h).const v hc).1
 
 /-- The compiled program, run as `CelContext::exec` runs it. -/
 def run (B : Builtins) (env : Env) (e : Ast) : Out := execProg B env (compileProgram B e)
 
-/-- **End to end.**  Executing the compiled program yields `evalSpec e env` — a failure value as a failure —
+/-- **End to end.**  Executing the compiled program yields `evalSpec B e env` — a failure value as a failure —
     and an empty call log. -/
 theorem exec_correct_partial (hnp : NoProgs env) {e : Ast} (h : InFragment e) :
-    run B env e = outOf (evalSpec e env) [] := by
+    run B env e = outOf (evalSpec B e env) [] := by
   show runAt B (31 + 1) env (compileX B e).cp.toCode true [] = _
   exact runAt_of_runs hnp 31 (compile_correct_partial hnp h) []
 
@@ -458,11 +462,11 @@ theorem exec_correct_partial (hnp : NoProgs env) {e : Ast} (h : InFragment e) :
     patterns, in environments where no parameter is bound to an identifier value (the scrutinee is
     duplicated on the stack before it is compared). Type patterns are not covered. -/
 theorem compile_correct_match_partial {rec top : Rec} (hnp : NoProgs env) (hpp : PlainParams env) {e : Ast}
-    (h : InFragmentM e) : Runs B rec top env (compileX B e).cp.toCode (evalSpec e env) :=
+    (h : InFragmentM e) : Runs B rec top env (compileX B e).cp.toCode (evalSpec B e env) :=
   (inv_all hnp (fun _ => hpp) h).runs
 
 theorem exec_correct_match_partial (hnp : NoProgs env) (hpp : PlainParams env) {e : Ast} (h : InFragmentM e) :
-    run B env e = outOf (evalSpec e env) [] := by
+    run B env e = outOf (evalSpec B e env) [] := by
   show runAt B (31 + 1) env (compileX B e).cp.toCode true [] = _
   exact runAt_of_runs hnp 31 (compile_correct_match_partial hnp hpp h) []
 
@@ -480,13 +484,13 @@ theorem outOf_res_err {v : Val} {a : Abort} {log : Log} :
   cases v <;> simp_all [outOf]
 
 theorem spec_of_ok (hnp : NoProgs env) {e : Ast} (h : InFragment e) {v : Val}
-    (hr : (run B env e).res = .ok v) : evalSpec e env = v ∧ ∀ k, v ≠ .err k := by
+    (hr : (run B env e).res = .ok v) : evalSpec B e env = v ∧ ∀ k, v ≠ .err k := by
   rw [exec_correct_partial hnp h] at hr
   obtain ⟨h1, h2⟩ := outOf_res_ok hr
   exact ⟨h1, fun k hk => h2 k (h1.trans hk)⟩
 
 theorem spec_of_fail (hnp : NoProgs env) {e : Ast} (h : InFragment e) {a : Abort}
-    (hr : (run B env e).res = .error a) : ∃ k, evalSpec e env = .err k ∧ a = .err k := by
+    (hr : (run B env e).res = .error a) : ∃ k, evalSpec B e env = .err k ∧ a = .err k := by
   rw [exec_correct_partial hnp h] at hr
   exact outOf_res_err hr
 
@@ -575,9 +579,9 @@ theorem or_fails_otherwise (hnp : NoProgs env) (sp : Span) {a b : Ast} (ha : InF
   have h0 : truthy (Val.err k) = false := rfl
   simp [h0, vOr_err_left, ht]
 
-theorem evalSpecCases_skip (pre rest : List MCase) (vs : Val) (env : Env)
-    (hpre : ∀ c ∈ pre, evalSpecPat (casePat c) vs env ≠ .bool true) :
-    evalSpecCases (pre ++ rest) vs env = evalSpecCases rest vs env := by
+theorem evalSpecCases_skip {B : Builtins} (pre rest : List MCase) (vs : Val) (env : Env)
+    (hpre : ∀ c ∈ pre, evalSpecPat B (casePat c) vs env ≠ .bool true) :
+    evalSpecCases B (pre ++ rest) vs env = evalSpecCases B rest vs env := by
   induction pre with
   | nil => rfl
   | cons c cs ih =>
@@ -593,8 +597,8 @@ theorem evalSpecCases_skip (pre rest : List MCase) (vs : Val) (env : Env)
     it (whose patterns do not match) and everything after it play no role. -/
 theorem match_first_case_only (hnp : NoProgs env) (hpp : PlainParams env) (sp sp' : Span) {s b : Ast} {p : Pat}
     {pre post : List MCase} (h : InFragmentM (.match_ sp s (pre ++ .mk sp' p b :: post)))
-    (hpre : ∀ c ∈ pre, evalSpecPat (casePat c) (evalSpec s env) env ≠ .bool true)
-    (hp : evalSpecPat p (evalSpec s env) env = .bool true) :
+    (hpre : ∀ c ∈ pre, evalSpecPat B (casePat c) (evalSpec B s env) env ≠ .bool true)
+    (hp : evalSpecPat B p (evalSpec B s env) env = .bool true) :
     run B env (.match_ sp s (pre ++ .mk sp' p b :: post)) = run B env b := by
   have hb : InFragmentM b := by
     cases h with
@@ -605,9 +609,9 @@ theorem match_first_case_only (hnp : NoProgs env) (hpp : PlainParams env) (sp sp
 /-- `match`: when no pattern matches the result is `null`. -/
 theorem match_none_is_null (hnp : NoProgs env) (hpp : PlainParams env) (sp : Span) {s : Ast}
     {cases : List MCase} (h : InFragmentM (.match_ sp s cases))
-    (hnone : ∀ c ∈ cases, evalSpecPat (casePat c) (evalSpec s env) env ≠ .bool true) :
+    (hnone : ∀ c ∈ cases, evalSpecPat B (casePat c) (evalSpec B s env) env ≠ .bool true) :
     run B env (.match_ sp s cases) = { res := .ok .null, log := [] } := by
-  have := evalSpecCases_skip cases [] (evalSpec s env) env hnone
+  have := evalSpecCases_skip cases [] (evalSpec B s env) env hnone
   rw [List.append_nil] at this
   rw [exec_correct_match_partial hnp hpp h, evalSpec, this]
   rfl
@@ -647,7 +651,7 @@ example : InFragment (.tern sp0 (.bin sp0 .or (var "x") (lit 1))
 -- fold_sound_partial: `1 + 2` is folded, to 3
 example : compile B (.bin sp0 .add (lit 1) (lit 2)) = .const (.int 3) := by
   simp [compile, compileX, compilePrim, compileOps, lit]; rfl
-example : evalSpec (.bin sp0 .add (lit 1) (lit 2)) env0 = .int 3 :=
+example : evalSpec B (.bin sp0 .add (lit 1) (lit 2)) env0 = .int 3 :=
   (fold_sound_partial (B := B) np0 (.bin _ _ _ _ (lit_frag 1) (lit_frag 2)) (by
     simp [compile, compileX, compilePrim, compileOps, lit]; rfl)).symm
 -- or_skips_rhs / or_rhs_irrelevant: `1 || x`
